@@ -19,6 +19,7 @@ func main() {
 	out := flag.String("out", "", "result")
 	max := flag.Int("max", 0, "max behaviours")
 	budget := flag.Duration("budget", 0, "budget")
+	full := flag.Bool("full", false, "every request kind at every step")
 	flag.Parse()
 	f, err := os.Open(*beh)
 	if err != nil {
@@ -70,6 +71,7 @@ func main() {
 		fmt.Fprintln(os.Stderr, err)
 		os.Exit(2)
 	}
+	r.Full = *full
 	start := time.Now()
 	for i, b := range all {
 		if *budget > 0 && time.Since(start) > *budget {
